@@ -61,6 +61,12 @@ CHECKS = {
         "text": "Vec.tla is the rewrite as implemented and VecSem.tla gives Python's scalar semantics and numpy's array semantics; TLC enumerates thousands of programs of the documented restricted style, predicts for each whether the rewrite rejects it, what the scalar function returns and what the array form returns or whether it raises, and proves that every silent mistranslation is explained by one of three documented quirk classes. Every program is rendered to Python and run through the real make_vectorizable: rewrite outcome, scalar and array results must equal the predictions (0 divergences) and real scalar vs array results are judged by TLC. For every internal rule the transformer's output AST must equal Visit(original), the array form is evaluated on seeded argument arrays against the scalar rule row by row, and the rule's module namespace must be unchanged by the call.",
         "note": "Integer/boolean domain and arrays of length 2 in the model; program menu (13 statement shapes x conditions x expressions), not the full grammar; real rules on seeded arguments (rows on which the scalar rule raises are discarded); structural divergence between transformer and Vec.tla is reported as divergence, a VIOLATION is a silent numeric disagreement or impurity.",
     },
+    "C20": {
+        "level": "fault_enumeration",
+        "technique": "TLA+ fault model (Validate.tla, MC_Validate): TLC enumerates base tables x single and double faults x benign re-encodings and proves each fault breaks Valid; every enumerated table is passed to compute_taxes_and_transfers and TLC judges raised / identical+warned (Trace_Validate)",
+        "text": "Validate.tla states well-formedness as the statement lists it; MC_Validate injects every fault class (missing/duplicate p_id, dangling and self pointers in the four foreign-key columns, varying household-level input, contradictory joint assessment, missing required column, duplicate column, lossy dtypes) at every eligible cell of four base tables, in pairs, and combined with lossless re-encodings; TLC proves the vacuity guards (fault => not Valid, benign => Valid). Every table is built as a DataFrame and simulated; TLC accepts iff malformed tables raise and well-formed re-encodings reproduce the base results exactly with a conversion warning.",
+        "note": "All single faults, seeded sample of pairs in quick (thousands in thorough); typed columns represented by alter/kind/bruttolohn_m, hh-level input by bruttokaltmiete_m_hh; any exception counts as rejection.",
+    },
 }
 
 NOT_APPLICABLE = {}
